@@ -1,6 +1,7 @@
 (* C18 — only-if-cached never touches the network.
-   For every request that carries only-if-cached (in any spelling parse_cc accepts, see C12) and is a
-   plain GET, the effect tree of RoundTrip contains no origin call on any path: whatever the store
+   For every request that carries only-if-cached (in any spelling parse_cc accepts, see C12) — a plain GET, or a request
+   the cache never answers from its store (another method, a Range request; those forwarded it to the origin on the pinned
+   tree: fix F35) — the effect tree of RoundTrip contains no origin call on any path: whatever the store
    answers (absent, corrupted, any index, any entry) and whatever the clock reads, and no background
    task containing one is spawned. *)
 From HC Require Import Transport.
@@ -28,11 +29,11 @@ Proof.
 Qed.
 
 Theorem C18_no_origin : forall q,
-  is_request_method_understood q = true ->
   req_only_if_cached (parse_cc (q_hdr q)) = true ->
   NoOrigin (round_trip q).
 Proof.
-  intros q Hm H; unfold round_trip; rewrite Hm; cbn [negb]; unfold get_refs_clean.
+  intros q H; unfold round_trip. destruct (is_request_method_understood q); cbn [negb];
+    [|unfold handle_unrecognized_method; rewrite H; constructor]. unfold get_refs_clean.
   constructor; intros ans; destruct (option_map drop_nil_refs ans) as [[|r l]|].
   - apply miss_no_origin, H.
   - destruct (has_nil_ref (r :: l)); [constructor|].
@@ -45,11 +46,11 @@ Print Assumptions C18_no_origin.
 
 (* The answer is a stored response or the synthesised 504: every leaf is a response, never an error. *)
 Theorem C18_answer : forall q,
-  is_request_method_understood q = true ->
   req_only_if_cached (parse_cc (q_hdr q)) = true ->
   Leaves (fun out => exists r, out = OResp r) (round_trip q).
 Proof.
-  intros q Hm H; unfold round_trip; rewrite Hm; cbn [negb]; unfold get_refs_clean.
+  intros q H; unfold round_trip. destruct (is_request_method_understood q); cbn [negb];
+    [|unfold handle_unrecognized_method; rewrite H; constructor; eauto]. unfold get_refs_clean.
   assert (Hmiss : forall k refs i, Leaves (fun out => exists r, out = OResp r) (handle_cache_miss q k refs i)).
   { intros; unfold handle_cache_miss; rewrite H; constructor; eauto. }
   assert (Hhit : forall st k refs i, Leaves (fun out => exists r, out = OResp r) (handle_cache_hit q st k refs i)).
@@ -69,35 +70,36 @@ Example C18_premises_satisfiable :
               q_url := {| u_scheme := bs "http"; u_host := bs "a.test"; u_path := bs "/x"; u_query := [];
                           u_force_query := false |};
               q_hdr := [(bs "Cache-Control", [bs "Only-If-Cached, max-stale=5"])] |} in
-  is_request_method_understood q = true /\ req_only_if_cached (parse_cc (q_hdr q)) = true.
-Proof. vm_compute; split; reflexivity. Qed.
+  is_request_method_understood q = true /\ req_only_if_cached (parse_cc (q_hdr q)) = true /\
+  is_request_method_understood {| q_method := bs "POST"; q_url := q_url q; q_hdr := q_hdr q |} = false.
+Proof. vm_compute; repeat split; reflexivity. Qed.
 
 (* ---------- history level ---------- *)
 From HC Require Import Run Spec.
 From HC.Proofs Require Import FreshProofs DecisionProofs ProvProofs TimeProofs SrcProofs.
 
-(* Along EVERY sequential history from an empty store, an exchange whose request is a plain GET carrying only-if-cached
-   logs no origin call, neither in the foreground nor in background work it starts, and what it returns is the
+(* Along EVERY sequential history from an empty store, an exchange whose request carries only-if-cached — whatever its
+   method — logs no origin call, neither in the foreground nor in background work it starts, and what it returns is the
    synthesised 504 or the served form of a stored entry with a known source (Src) that does not need validation by
    the specification at that instant. *)
 Theorem C18_history : forall cfg h t0 script k gq obs,
   let all := run_history cfg h (init_world t0 script) in
   let L := flat_map (fun x => x_events x ++ x_bg_events x) all in
   nth_error h k = Some gq -> nth_error all k = Some obs ->
-  is_request_method_understood (snd gq) = true -> req_only_if_cached (parse_cc (q_hdr (snd gq))) = true ->
+  req_only_if_cached (parse_cc (q_hdr (snd gq))) = true ->
   ~ has_call (x_events obs) /\ ~ has_call (x_bg_events obs) /\
   forall o, x_result obs = Done o ->
     o = OResp response_504 \/
     exists e, Src (GXl L) e /\ o = served_outcome (snd gq) e (x_t0 obs) /\
       (valid_date (e_hdr e) -> needs_validation (view_of e) (snd gq) (x_t0 obs) = false).
 Proof.
-  intros cfg h t0 script k gq obs all L Hk Ho Hm Hoic.
+  intros cfg h t0 script k gq obs all L Hk Ho Hoic.
   assert (Hcalls : ~ has_call (x_events obs) /\ ~ has_call (x_bg_events obs)).
   { clear L. subst all. revert k Hk Ho. generalize (init_world t0 script). induction h as [|[gap q] h IH]; intros w k Hk Ho; [destruct k; discriminate|].
     cbn [run_history] in Ho.
     destruct (exchange cfg q _) as [obs0 w2] eqn:E. destruct k as [|k].
     - cbn in Hk, Ho. injection Hk as <-. injection Ho as <-. cbn [snd] in *.
-      eapply exchange_no_origin; [apply C18_no_origin; [exact Hm|exact Hoic]|exact E].
+      eapply exchange_no_origin; [apply C18_no_origin; exact Hoic|exact E].
     - cbn in Hk, Ho. eapply IH; eassumption. }
   destruct Hcalls as [Hfg Hbg]. split; [exact Hfg|split; [exact Hbg|]]. intros o Hr.
   destruct (history_safeX L cfg h (init_world t0 script)) as [_ H]; [intros k' e' E; discriminate|apply incl_refl|].
